@@ -41,11 +41,15 @@ def cleanup():
     _dir = None
 
 
-def new_node(name=None, link=False):
-    """a regular file, or (link=True) a symlink to one, as /dev/disk/by-id/... names are"""
+def new_node(name=None, link=False, own_dir=False):
+    """a regular file, or (link=True) a symlink to one, as /dev/disk/by-id/... names are; own_dir: in a directory of its own
+    (so that the directory can go away with the node)"""
     global _n
     _n += 1
     p = os.path.join(base(), name or "sg%d" % _n)
+    if own_dir:
+        os.mkdir(os.path.join(base(), "d%d" % _n))
+        p = os.path.join(base(), "d%d" % _n, name or "sg%d" % _n)
     if link == "chardev":
         # a real character special file (what /dev/sg* are); every node made for this path has the same device number,
         # as the replacement of a re-plugged unit usually has
@@ -71,6 +75,14 @@ def replug(path):
     _n += 1
     import stat
 
+    # whatever an unplug left behind at the path or in place of its directory goes first
+    d = os.path.dirname(path)
+    if os.path.lexists(d) and not os.path.isdir(d):
+        os.unlink(d)
+    if not os.path.lexists(d):
+        os.makedirs(d)
+    if os.path.islink(path) and not os.path.exists(path):
+        os.unlink(path)
     if os.path.exists(path) and stat.S_ISCHR(os.lstat(path).st_mode) or path in _CHARDEVS:
         _CHARDEVS.add(path)
         tmp = path + ".new%d" % _n
@@ -96,6 +108,13 @@ def remove_all(path):
     """remove the node and every file created for it"""
     d = os.path.dirname(path)
     b = os.path.basename(path)
+    if d != base():
+        # a node with a directory of its own
+        if os.path.isdir(d) and not os.path.islink(d):
+            shutil.rmtree(d, ignore_errors=True)
+        elif os.path.lexists(d):
+            os.unlink(d)
+        return
     for fn in os.listdir(d):
         if fn == b or fn.startswith(b + "."):
             try:
@@ -104,8 +123,27 @@ def remove_all(path):
                 pass
 
 
-def unplug(path):
+UNPLUG_KINDS = ("unlink", "dangling", "selfloop", "notdir")
+
+
+def unplug(path, kind="unlink"):
+    """the node goes away.  unlink: the name is gone (ENOENT).  dangling: the name is a symlink whose target is gone (ENOENT).
+    selfloop: the name is a symlink that resolves to itself (ELOOP).  notdir: the directory that held the node is gone and a
+    plain file has its name (ENOTDIR; only for nodes created with own_dir)"""
+    if kind == "notdir" and os.path.dirname(path) != base():
+        d = os.path.dirname(path)
+        shutil.rmtree(d)
+        with open(d, "wb"):
+            pass
+        return kind
     os.unlink(path)
+    if kind == "dangling":
+        os.symlink(path + ".nowhere", path)
+    elif kind == "selfloop":
+        os.symlink(path, path)
+    else:
+        kind = "unlink"
+    return kind
 
 
 def open_fds_on(path_prefix):
